@@ -128,7 +128,8 @@ def insert_bad(doc: dict, r, position: str, bad_key: str, n: int):
         x = r.choice(cands)
         comps[x].setdefault("properties", {})[f"zq_bad_{n}"] = bad
         touched.add(x)
-    elif position in ("new_op_param", "new_op_response", "new_op_body", "new_op_optional_path", "new_op_duplicate_params", "new_op_unparseable_body", "new_op_bad_status"):
+    elif position in ("new_op_param", "new_op_response", "new_op_body", "new_op_optional_path", "new_op_duplicate_params", "new_op_unparseable_body", "new_op_bad_status",
+                      "new_op_schemaless_body", "new_op_malformed_media", "new_op_undeclared_placeholder", "new_op_param_not_in_path", "new_op_schemaless_param"):
         op = {"operationId": f"zq_bad_op_{n}", "responses": {"200": {"description": "ok"}}}
         path = f"/zq-bad-{n}"
         if position == "new_op_param":
@@ -146,6 +147,16 @@ def insert_bad(doc: dict, r, position: str, bad_key: str, n: int):
             op["requestBody"] = {"content": {"application/x-unknown-zq": {"schema": {"type": "string"}}}}
         elif position == "new_op_bad_status":
             op["responses"]["not-a-status"] = {"description": "bad"}
+        elif position == "new_op_schemaless_body":
+            op["requestBody"] = {"content": {"application/json": {}}}
+        elif position == "new_op_malformed_media":
+            op["requestBody"] = {"content": {r.choice(["garbage", "application/", ";charset=utf-8", "text"]): {"schema": {"type": "string"}}}}
+        elif position == "new_op_undeclared_placeholder":
+            path += "/{zq_undeclared}"
+        elif position == "new_op_param_not_in_path":
+            op["parameters"] = [{"name": "zq_ghost", "in": "path", "required": True, "schema": {"type": "string"}}]
+        elif position == "new_op_schemaless_param":
+            op["parameters"] = [{"name": "zq_filter", "in": "query", "content": {"application/json": {"schema": {"type": "object", "properties": {"a": {"type": "string"}}}}}}]
         d["paths"][path] = {"post": op}
     elif position in ("existing_op_extra_response", "new_op_inline_then_bad_response"):
         # a bad response is omitted on its own: the operation and the classes of its other responses stay
@@ -278,7 +289,8 @@ def main() -> int:
     ev.count("clean_bases", len(clean))
     positions = ["new_component", "new_model_property", "new_array_items", "new_union_member", "new_allof_parent", "new_additional", "existing_model_property", "depended_component", "depended_family", "existing_model_sharing_a_reference", "existing_model_sharing_a_reference",
                  "new_op_param", "new_op_response", "new_op_body", "new_op_optional_path", "new_op_duplicate_params", "new_op_unparseable_body", "new_op_bad_status",
-                 "existing_op_extra_response", "new_op_inline_then_bad_response", "shadowed_path_item_param"]
+                 "existing_op_extra_response", "new_op_inline_then_bad_response", "shadowed_path_item_param",
+                 "new_op_schemaless_body", "new_op_malformed_media", "new_op_undeclared_placeholder", "new_op_param_not_in_path", "new_op_schemaless_param"]
     jobs, info = [], {}
     per_base = 8 if quick else 30
     k = 0
